@@ -29,10 +29,13 @@ type mwReg struct {
 	level string // "R", "A", "B"
 }
 
-func expected(regs []mwReg, h string) string {
+func expected(regs []mwReg, h string) string { return expectedX(regs, h, true) }
+
+// withLate: include router-level middlewares that were registered on the running router ("RL")
+func expectedX(regs []mwReg, h string, withLate bool) string {
 	var in []string
 	for _, m := range regs {
-		if m.level == "R" || m.level == h {
+		if m.level == "R" || m.level == h || (m.level == "RL" && withLate) {
 			in = append(in, fmt.Sprintf("%d", m.id))
 		}
 	}
@@ -143,7 +146,16 @@ func mwScenario(L int, lateB bool, c int) *explore.Scenario {
 		}()
 		<-r.Running()
 		if lateB {
-			prog += "RUN HB "
+			prog += "RUN "
+			vs.Quiesce() // handler A is up and has handled its message
+			// a router-level middleware may be registered on the running router: handlers started afterwards run it
+			if vs.Choose(2, 0, "router-level middleware registered after Run") == 1 {
+				r.AddMiddleware(mk(nextID))
+				regs = append(regs, mwReg{nextID, "RL"})
+				nextID++
+				prog += "MR "
+			}
+			prog += "HB "
 			addHandler("B")
 			n := vs.Choose(3, 0, "late middlewares")
 			for i := 0; i < n; i++ {
@@ -159,7 +171,9 @@ func mwScenario(L int, lateB bool, c int) *explore.Scenario {
 		vs.Quiesce()
 		for h := range hs {
 			got := *traces["msg"+h]
-			if want := expected(regs, h); got != want {
+			// (handler A was started by Run: whether a router-level middleware registered afterwards reaches it is not
+			// fixed by the statement; handler B was started after every registration)
+			if want := expected(regs, h); got != want && !(h == "A" && got == expectedX(regs, h, false)) {
 				vs.Fail("nesting", "program [%s] with handler names %q: handler %s ran %q, expected %q", strings.TrimSpace(prog), namings[naming], h, got, want)
 			}
 		}
